@@ -327,3 +327,33 @@ func HarnessC17Nul(L int) {
 	verifReach("checked")
 	verifCheck(len(errs) >= 1, "accepted-but-invalid")
 }
+
+// HarnessC17ListGap: a filter list with an empty (or null) element before a
+// pattern of L arbitrary bytes: the pattern after the gap is validated like any
+// other.
+func HarnessC17ListGap(L int) {
+	pat := verifSymString("pat", L)
+	keys := []string{"branches", "tags-ignore", "paths"}
+	k := verifChoose("key", len(keys))
+	s := yScalar
+	gap := s("")
+	if verifChoose("gap", 2) == 1 {
+		gap = yTagged("!!null", "")
+	}
+	last := s(pat)
+	doc := yDoc(yMap(s("on"), yMap(s("push"), yMap(s(keys[k]), ySeq(s("main"), gap, last))), s("jobs"), yMap(s("j"), yMap(s("runs-on"), s("ubuntu-latest"), s("steps"), ySeq(yMap(s("run"), s("echo")))))))
+	verifPlace(doc, 1, 0)
+	errs := verifLintNode(doc, []Rule{NewRuleGlob()})
+	want := len(ValidateRefGlob(pat))
+	if keys[k] == "paths" {
+		want = len(ValidatePathGlob(pat))
+	}
+	n := 0
+	for _, e := range errs {
+		if e.Line == last.Line {
+			n++
+		}
+	}
+	verifReach("checked")
+	verifCheck(n == want, "pattern-after-an-empty-element-not-validated")
+}
